@@ -4,11 +4,9 @@ CONSTANTS
   ConsumerSet = {"c1", "c2", "c3"}
   StreamSet = {"sa", "sb"}
   MaxParts = 2
-  MaxOps = 5
+  MaxOps = 4
   MaxDeletes = 1
   Coords = {"A", "X"}
-  GetDs = {0}
-INVARIANTS Inv_ExactlyOne Inv_NoForeign Inv_AssignedExist Inv_Balanced Inv_SameEpochSame Inv_Converged Inv_Impl
-PROPERTIES StepsOK
+  GetDs = {}
 VIEW MCView
 CHECK_DEADLOCK FALSE
